@@ -56,6 +56,15 @@ def region_jobs(tier):
                           "mask only the case 'mask has a clip region of its own' is specified (the code ignores the alpha-map clip otherwise)"],
                       domain="the %s has an alpha map whose clip region (one rectangle or empty) is enabled for sources; everything else as in "
                              "region.*: p in region <=> p in S, S including p - (dest - %s_xy + %s alpha origin) in the alpha map's clip" % (who, who, who)))
+    # (lead) the multi-rectangle branch of clip_general_image: call protocol + frame with translate/intersect as recording stubs
+    js.append(Job("region.multi.protocol", "C03/region_multi.c", defines={"VM_CHECKS": 1}, kind="proof", unwind=6, functions=F_REGION, timeout=900, min_props=6,
+                  assumptions=["multi-rectangle clips: pixman_region32_translate / pixman_region32_intersect replaced by recording contract stubs (their "
+                               "own contracts: C07 translate.*, C05 *.intersect.*); request coordinates and alpha origins in [-2^27, 2^27]; the "
+                               "destination alpha map carries no clip region (outside the property statement)"],
+                  domain="every combination of enabled/disabled destination, source, source-alpha-map, mask and mask-alpha-map clips (2-rectangle regions), "
+                         "every request geometry and alpha origin, failure of any one intersect call: each enabled clip is intersected exactly once with "
+                         "the composite region moved, relative to the clip, by minus the image's offset in destination space (the frame half of "
+                         "this harness is C16's job region.multi.frame)"))
     if tier != "quick":
         js.append(Job("region.all_flags_symbolic", "C03/region.c", defines={}, kind="proof", unwind=3, functions=F_REGION,
                       assumptions=A_REGION, timeout=3600, min_props=6,
